@@ -1,6 +1,7 @@
 import GeomV.C07.LemmasCost
 import GeomV.C07.LemmasJsonCost
 import GeomV.C07.Spec
+import GeomV.C07.Gen
 /-!
 # C07 — property theorems
 
@@ -232,5 +233,112 @@ theorem C07_json_alloc (typ : String) (c : GoVal) :
 
 /-- the nil pointer costs nothing -/
 example : (fromGeoJSON none).cost = 0 := rfl
+
+
+/-! ### re-encoding a decoded GeoJSON value -/
+
+/-- every value the computation can return satisfies `P` -/
+def Returns {α : Type} (P : α → Prop) (m : J α) : Prop := ∀ a, m.res = .ok a → P a
+
+theorem returns_bind {α β : Type} (P : β → Prop) {m : J α} {f : α → J β} (h : ∀ a, Returns P (f a)) :
+    Returns P (m >>= f) := by
+  intro b hb
+  cases hm : m.res with
+  | error e => rw [(bind_err (f := f) hm).1] at hb; cases hb
+  | ok a => rw [(bind_ok (f := f) hm).1] at hb; exact h a b hb
+
+theorem returns_pure {α : Type} (P : α → Prop) (a : α) (h : P a) : Returns P (pure a : J α) := by
+  intro b hb; cases hb; exact h
+
+theorem returns_panic {α : Type} (P : α → Prop) (p : PanicVal) : Returns P (panic p : J α) := by
+  intro b hb; cases hb
+
+/-- the six GeoJSON geometry kinds of this package -/
+def IsSix : BGeom → Prop
+  | .point _ | .multiPoint _ | .lineString _ | .multiLineString _ | .polygon _ | .multiPolygon _ => True
+  | _ => False
+
+theorem doFrom_returns_six (g : Option (String × GoVal)) : Returns IsSix (doFromGeoJSON g) := by
+  cases g with
+  | none => exact returns_panic _ _
+  | some tc =>
+    obtain ⟨typ, c⟩ := tc
+    have pn : ∀ p, Returns IsSix (panic p : J BGeom) := fun p => returns_panic _ p
+    simp only [doFromGeoJSON]
+    split
+    · refine returns_bind _ (fun cs => ?_)
+      split
+      · exact returns_bind _ (fun _ => returns_bind _ (fun _ => returns_pure _ _ trivial))
+      · exact pn _
+    split
+    · refine returns_bind _ (fun cs => ?_)
+      split
+      · exact pn _
+      · refine returns_bind _ (fun c0 => ?_)
+        split
+        · exact returns_bind _ (fun _ => returns_pure _ _ trivial)
+        · exact pn _
+    split
+    · refine returns_bind _ (fun cs => ?_)
+      split
+      · exact pn _
+      · refine returns_bind _ (fun c0 => ?_)
+        split
+        · exact returns_bind _ (fun _ => returns_pure _ _ trivial)
+        · exact pn _
+    split
+    · refine returns_bind _ (fun cs => ?_)
+      split
+      · exact pn _
+      · refine returns_bind _ (fun c0 => ?_)
+        split
+        · exact pn _
+        · refine returns_bind _ (fun c00 => ?_)
+          split
+          · exact returns_bind _ (fun _ => returns_bind _ (fun _ => returns_pure _ _ trivial))
+          · exact pn _
+    split
+    · refine returns_bind _ (fun cs => ?_)
+      split
+      · exact pn _
+      · refine returns_bind _ (fun c0 => ?_)
+        split
+        · exact pn _
+        · refine returns_bind _ (fun c00 => ?_)
+          split
+          · exact returns_bind _ (fun _ => returns_pure _ _ trivial)
+          · exact pn _
+    split
+    · refine returns_bind _ (fun cs => ?_)
+      split
+      · exact pn _
+      · refine returns_bind _ (fun c0 => ?_)
+        split
+        · exact pn _
+        · refine returns_bind _ (fun c00 => ?_)
+          split
+          · exact pn _
+          · refine returns_bind _ (fun c000 => ?_)
+            split
+            · exact returns_bind _ (fun _ => returns_bind _ (fun _ => returns_pure _ _ trivial))
+            · exact pn _
+    · exact pn _
+
+/-- **C07_json_reencode_exact.** Exact characterisation of the decodable-but-not-re-encodable values:
+whenever `FromGeoJSON` succeeds (on ANY Geometry value), the result is one of the six GeoJSON kinds,
+and it has a GeoJSON encoding (`ToGeoJSON` + `json.Marshal` succeed) if and only if all its
+coordinates are finite. Non-finite coordinates cannot come out of `Decode([]byte)` — JSON text has
+no NaN/Inf and out-of-range numbers make `Unmarshal` fail — only out of a hand-built `Geometry`. -/
+theorem C07_json_reencode_exact (g : Option (String × GoVal)) (v : BGeom)
+    (h : (fromGeoJSON g).res = .ok v) :
+    IsSix v ∧ ((reencode v).isSome = true ↔ allFinite v = true) := by
+  have hv : (doFromGeoJSON g).res = .ok v := by
+    rw [fromGeoJSON_res] at h
+    cases hr : (doFromGeoJSON g).res with
+    | ok w => rw [hr] at h; simp at h; rw [h]
+    | error p => rw [hr] at h; cases p <;> simp at h
+  have six := doFrom_returns_six g v hv
+  refine ⟨six, ?_⟩
+  cases v <;> simp [IsSix] at six <;> simp only [reencode] <;> cases hf : allFinite _ <;> simp [hf]
 
 end GeomV.C07
